@@ -80,7 +80,9 @@ class BaseNode(Node):
             value = None
         elif self.dimension or self.value_slice:
             # cast multidimensional values
-            if isinstance(value, str):
+            if isinstance(value, str) and self.keyword=='str' and not self.dimension:
+                pass # text of a scalar string node is sliced as it is
+            elif isinstance(value, str):
                 value = np.array(json.loads(value), dtype=self.dtype)
             else:
                 value = np.array(value, dtype=self.dtype)
